@@ -182,6 +182,36 @@ template <class A, class C> void run_int_seq(vf::Ctx& c, int archId, const char*
 	if (got.size() != n) c.fail("a sequence changed its length because an element was skipped", d);
 	for (size_t i = 0; i < n; i++) { if (off[i] ? got[i] != -424242 : got[i] != clean[i]) c.fail(off[i] ? "the target of a skipped value was modified" : "a value that was not offended is loaded differently (neighbour disturbed)", vf::cat("element ", i, " | ", d)); }
 }
+// sequences of narrow numeric types (float, 8 / 16 / 32-bit integers): the offence is a NUMBER the element type cannot hold (a double beyond
+// FLT_MAX for float; an integer beyond the limits, a negative one for unsigned, a huge or fractional double for integers)
+template <class T> Val narrow_offence(vf::Src& s) {
+	if constexpr (std::is_floating_point_v<T>) { static const double v[] = { 1e300, -1e300, 1e39, -1e39, 3.5e38, -1.7e308 }; return refmp::mkF64(v[s.draw(6)]); }
+	else if constexpr (std::is_signed_v<T>) { switch (s.draw(4)) { case 0: return refmp::mkInt(static_cast<int64_t>(std::numeric_limits<T>::max()) + 1 + static_cast<int64_t>(s.draw(1000))); case 1: return refmp::mkInt(static_cast<int64_t>(std::numeric_limits<T>::min()) - 1 - static_cast<int64_t>(s.draw(1000))); case 2: return refmp::mkUInt((1ull << 63) + s.draw(1000)); default: return refmp::mkF64(s.coin() ? 1e30 : -1e30); } }
+	else { switch (s.draw(3)) { case 0: return refmp::mkInt(-1 - static_cast<int64_t>(s.draw(1000))); case 1: return refmp::mkInt(static_cast<int64_t>(std::numeric_limits<T>::max()) + 1 + static_cast<int64_t>(s.draw(1000))); default: return refmp::mkF64(1e30); } }
+}
+template <class A, class T> void run_narrow_seq(vf::Ctx& c, int archId, const char* name) {
+	const size_t n = 2 + c.src.draw(6); std::vector<T> clean(n); std::vector<Val> doc; std::vector<bool> off(n, false); bool followed = false;
+	for (size_t i = 0; i < n; i++) {
+		const int64_t v = 1 + static_cast<int64_t>(c.src.draw(100));
+		if (c.src.chance(1, 3)) { off[i] = true; doc.push_back(narrow_offence<T>(c.src)); if (i + 1 < n) followed = true; }
+		else if (std::is_floating_point_v<T> && (archId == MSGPACK || c.src.coin())) { clean[i] = static_cast<T>(static_cast<double>(v) + 0.5); doc.push_back(refmp::mkF64(static_cast<double>(v) + 0.5)); }
+		else { clean[i] = static_cast<T>(v); doc.push_back(refmp::mkInt(v)); }
+	}
+	std::string bytes; const Val arr = refmp::mkArr(doc);
+	if (archId == MSGPACK && c.src.coin()) { refmp::encode(bytes, arr, [&](size_t k) -> size_t { return k <= 1 ? 0 : c.src.draw(k); }); c.label("reference-encoder"); }
+	else { Cfg mem; Outcome so = dyn::save<A>(arr, bytes, mem); if (!so.ok()) c.fail("saving the document failed", so.str()); }
+	Cfg cfg; cfg.stream = c.src.coin(); cfg.streamKind = cfg.stream ? gen_stream_kind(c.src, archId == MSGPACK) : 0; cfg.chunk = 1 + c.src.draw(40); cfg.opt.mismatchedTypesPolicy = MismatchedTypesPolicy::Skip; cfg.opt.overflowNumberPolicy = OverflowNumberPolicy::Skip;
+	c.nontrivial = followed; c.describe(vf::cat(arch_name(archId), " vector<", name, "> n=", n, " ", refmp::show(arr).substr(0, 200), " ", cfg.str()));
+	std::vector<T> target(n, static_cast<T>(77)); Outcome lo = load<A>(target, bytes, cfg);
+	std::string gs; for (auto x : target) gs += vf::cat(static_cast<double>(x), " ");
+	const std::string d = vf::cat(arch_name(archId), " vector<", name, "> doc=", archId == MSGPACK ? vf::hex(bytes.substr(0, 160)) : bytes.substr(0, 300), " [", cfg.str(), "] => ", lo.str(), " loaded=[", gs, "]");
+	if (!lo.ok()) c.fail("loading with the Skip policies ended in an exception", d);
+	if (target.size() != n) c.fail("a sequence changed its length because an element was skipped", d);
+	for (size_t i = 0; i < n; i++) { if (off[i] ? target[i] != static_cast<T>(77) : target[i] != clean[i]) c.fail(off[i] ? "the target of a skipped value was modified" : "a value that was not offended is loaded differently (neighbour disturbed)", vf::cat("element ", i, " | ", d)); }
+}
+template <class A> void run_narrow(vf::Ctx& c, int archId) {
+	switch (c.src.draw(5)) { case 0: run_narrow_seq<A, float>(c, archId, "float"); break; case 1: run_narrow_seq<A, int8_t>(c, archId, "int8"); break; case 2: run_narrow_seq<A, uint16_t>(c, archId, "uint16"); break; case 3: run_narrow_seq<A, int32_t>(c, archId, "int32"); break; default: run_narrow_seq<A, uint32_t>(c, archId, "uint32"); break; }
+}
 // arrays longer than the 4096-element cap of the size estimate: elements behind the cap are appended one by one; a skipped one must still
 // occupy its position (it keeps the sentinel or is value-initialised), the length is unchanged and the neighbours are loaded
 template <class A, class C> void run_long_seq(vf::Ctx& c, int archId, const char* name) {
@@ -230,6 +260,8 @@ VF_PROPERTY(skip_long_sequences, 1, "arrays of 4090..4109 integers (around the 4
 	const bool mp = c.src.coin();
 	switch (c.src.draw(3)) { case 0: if (mp) run_long_seq<MsgPackArchive, std::vector<int64_t>>(c, MSGPACK, "vector"); else run_long_seq<JsonArchive, std::vector<int64_t>>(c, JSON, "vector"); break; case 1: if (mp) run_long_seq<MsgPackArchive, std::deque<int64_t>>(c, MSGPACK, "deque"); else run_long_seq<JsonArchive, std::deque<int64_t>>(c, JSON, "deque"); break; default: if (mp) run_long_seq<MsgPackArchive, std::list<int64_t>>(c, MSGPACK, "list"); else run_long_seq<JsonArchive, std::list<int64_t>>(c, JSON, "list"); }
 }
+VF_PROPERTY(skip_narrow_number_sequences_msgpack, 2, "vector<float / int8 / uint16 / int32 / uint32> pre-filled with a sentinel, loaded with the Skip policies from an array (library-written or reference-encoded in any legal width) in which any subset of elements is a number the element type cannot hold (double beyond FLT_MAX; integer beyond the limits or negative for unsigned; huge double for integers): offended elements keep the sentinel, all others are loaded, the length is unchanged; memory, streams and file; non-trivial = an offended element is followed by another element") { run_narrow<MsgPackArchive>(c, MSGPACK); }
+VF_PROPERTY(skip_narrow_number_sequences_json, 1, "same through JSON") { run_narrow<JsonArchive>(c, JSON); }
 VF_PROPERTY(skip_typed_sequences_xml, 2, "same through XML (the sequence is the member 'seq' of the root)") { run_typed_seq<XmlArchive>(c, XML); }
 VF_PROPERTY(skip_dyn_msgpack, 5, "arbitrary tree (depth <= 3: arrays of scalars, arrays of objects, objects holding arrays, byte containers) with 1..6 values at any depth replaced by a certainly mismatching value (other scalar kind, string, array, object, out-of-range number), loaded with both Skip policies from memory and streams into a sentinel-filled target of the clean shape, followed by an envelope sentinel; non-trivial = an offence is followed by more data in the same array/object") { run_dyn<MsgPackArchive>(c, MSGPACK); }
 VF_PROPERTY(skip_dyn_json, 4, "same through JSON") { run_dyn<JsonArchive>(c, JSON); }
